@@ -1,11 +1,14 @@
 #!/bin/bash
 # Runs every check against the archived property-PRESERVING rewrites of the library (seeded/preserving/):
-# substantial re-implementations that keep the property. Every check must stay silent (exit 0).
+# substantial re-implementations that keep the property. Every check must stay silent (exit 0). 3 at a time.
 cd "$(dirname "$0")"
-bad=0
-for d in seeded/preserving/C*-p*/; do
+one() {
+  d=$1; tier=$2
   id=$(basename $d | cut -d- -f1)
-  out=$(./seedtest.sh $d/patch.diff $id ${1:-quick} 2>&1 | grep -av KNOWN-FINDING)
-  if echo "$out" | grep -q "exit=0"; then echo "SILENT   $d"; else echo "ALARM    $d $(echo "$out" | grep -a 'VIOLATION\|INFRA' | head -1 | cut -c1-200)"; bad=1; fi
-done
-exit $bad
+  out=$(./seedtest.sh $d/patch.diff $id $tier 2>&1 | grep -av KNOWN-FINDING)
+  if echo "$out" | grep -q "exit=0"; then echo "SILENT   $d"; else echo "ALARM    $d $(echo "$out" | grep -a 'VIOLATION\|INFRA' | head -1 | cut -c1-200)"; fi
+}
+export -f one
+mkdir -p .work
+ls -d seeded/preserving/C*-p*/ | xargs -P 3 -I{} bash -c "one {} ${1:-quick}" | tee .work/preserving_regress.log
+! grep -q "^ALARM" .work/preserving_regress.log
